@@ -38,6 +38,9 @@ REPO_FILES = ["posix/filesystem_posix.c", "posix/system_posix.c", "system.c", "e
 def build(ctx):
     ctx.build_driver("drv_c14", REPO_FILES, flags=["-Wl,--wrap=" + w for w in WRAPS],
                      extra=[os.path.join(vlib.HARNESS, "wrap_io_c14.c")])
+    # the configuration without copy_file_range(): only the read/write loop exists there
+    ctx.build_driver("drv_c14", REPO_FILES, flags=["-Wl,--wrap=" + w for w in WRAPS] + ["-UHAVE_COPY_FILE_RANGE"],
+                     extra=[os.path.join(vlib.HARNESS, "wrap_io_c14.c")], out=ctx.path("drv_c14_nocfr"))
     rc, out, err = vlib.sh([os.path.join(vlib.VERIF, "tools", "build_models.sh"), "C14"], timeout=600)
     if rc != 0:
         raise vlib.BuildError("model build failed: " + (out + err)[-500:])
@@ -136,10 +139,20 @@ def gen(ctx, seed, tier):
         if c not in seen:
             seen.add(c)
             out.append(c)
+    # the build without copy_file_range(): the fault-free cases again (spec only)
+    out += ["~ " + c for c in out if c.startswith("K ") and c.split()[10] == "-"][:(400 if thorough else 120)]
     return out
 
 
 def run_impl(ctx, cases):
+    alt = [i for i, c in enumerate(cases) if c.startswith("~ ")]
+    if alt:
+        a = set(alt)
+        main = iter(run_impl(ctx, [c for i, c in enumerate(cases) if i not in a]))
+        rc, o, err = ctx.run_lines([ctx.path("drv_c14_nocfr")], [cases[i][2:] for i in alt], timeout=900)
+        o = o + ["CRASH rc=%d %s" % (rc, err.strip().split("\n")[0][:200] if err.strip() else "")] * (len(alt) - len(o))
+        o = iter(o)
+        return [next(o) if i in a else next(main) for i in range(len(cases))]
     rc, out, err = ctx.run_lines([ctx.path("drv_c14")], cases, timeout=1500)
     if rc != 0:
         out = out + ["CRASH rc=%d %s" % (rc, err.strip().split("\n")[0][:200] if err.strip() else "")] * (len(cases) - len(out))
@@ -156,7 +169,9 @@ def run_model(ctx, cases):
     real kernel gave to the first copy_file_range call; only the observable part is compared for them."""
     conv = []
     for c in cases:
-        if c.startswith("X "):
+        if c.startswith("~ "):
+            conv.append(c[2:])          # fault-free case: the observable part does not depend on which path copies
+        elif c.startswith("X "):
             t = c.split()
             info = dict(kv.split("=") for kv in getattr(ctx, "c14_x", {}).get(c, "xfs=0 cfr=0 bs=4096").split())
             e = int(info.get("cfr", "0"))
@@ -169,11 +184,15 @@ def run_model(ctx, cases):
     for i, c in enumerate(cases):
         if c.startswith("X "):
             ms[i] = vlib.obs(ms[i]) + " || " + getattr(ctx, "c14_x", {}).get(c, "?")
+        elif c.startswith("~ "):
+            ms[i] = "="                 # the call trace of this configuration is not modelled: spec only
     return ms, ss
 
 
 def l1_extra(case, impl_obs):
     """the conditional parts of the property, as predicates on the implementation's own output"""
+    if case.startswith("~ "):
+        case = case[2:]
     w = impl_obs.split()
     t = {w[i].rstrip("="): w[i + 1] for i in range(0, len(w) - 1, 2)}
     if t.get("fds") != "0":
@@ -189,13 +208,15 @@ def l1_extra(case, impl_obs):
 
 def nontrivial(c):
     t = c.split()
+    if t[0] == "~":
+        t = t[1:]
     return t[0] == "K" and t[1] == "R"
 
 
 def tokens(case):
     t = case.split()
     if t[0] != "K":
-        return [case + "|"]
+        return [case + "|"]     # (also the "~ " cases: they have no script to shrink)
     pre = " ".join(t[:10])
     items = [] if t[10] == "-" else t[10].split(",")
     return [pre + "|" + x for x in items] or [pre + "|"]
